@@ -15,6 +15,7 @@ import Driver.OpsConc
 import Driver.OpsCopy
 import Driver.OpsGen
 import Driver.OpsGoString
+import Driver.OpsReq
 import GoderiveModel.U.Typing
 import GoderiveModel.S.Equal
 import GoderiveModel.Spec.StructEq
@@ -72,6 +73,7 @@ def runOpCore (s : DState) (name : String) (args : List SExp) : String :=
   | _ => "bad-op"
 
 def runOp (s : DState) (name : String) (args : List SExp) : String :=
+  if let some r := OpsReq.run s name args then r else
   match OpsLists.run s name args with
   | some r => r
   | none =>
